@@ -19,7 +19,7 @@ THas == l <= Len(Trace)
 Others == UNCHANGED <<mprog, mlang, mtrace, gprog, gdone>>
 
 BriefP(p) == [kind |-> p.kind, subs |-> p.subs, og |-> p.og, rule |-> p.rule, col |-> p.col, a |-> p.a, w |-> p.w, lin |-> p.lin,
-              cap |-> p.cap, jk |-> p.jk, ml |-> p.ml, dash |-> p.dash, ph |-> p.ph, ko |-> p.ko, o |-> p.o, onz |-> p.onz, ou |-> p.ou, ounz |-> p.ounz, F |-> p.F]
+              cap |-> p.cap, jk |-> p.jk, ml |-> p.ml, dash |-> p.dash, ph |-> p.ph, ko |-> p.ko, o |-> p.o, fo |-> p.fo, so |-> p.so, onz |-> p.onz, ou |-> p.ou, ounz |-> p.ounz, F |-> p.F]
 BriefE(i) == IF i < 1 \/ i > Len(queue) THEN [kind |-> "none"]
              ELSE LET e == queue[i] IN [kind |-> e.kind, draw |-> e.draw, geom |-> e.geom, rule |-> e.rule, col |-> e.col, a |-> e.a, pen |-> e.pen,
                                         cap |-> e.cap, jk |-> e.jk, ml |-> e.ml, dash |-> e.dash, ph |-> e.ph, sim |-> e.sim, F |-> e.F]
